@@ -1356,6 +1356,23 @@ def b_nc_remove(tier, rnd):
                     "x octaves {3, 4} by Note", "cases": cases}
 
 
+@battery("nc_remove_many")
+def b_nc_remove_many(tier, rnd):
+    from mingus.containers.note import Note
+    from mingus.containers.note_container import NoteContainer
+    sets = [[], ["C"], [["C", 3], ["C", 5]], ["C", "E", "G"], [["E", 2], ["C", 4], ["E", 4], ["E", 6]], ["B#", "Db", "C#"],
+            [["C", 4], ["B#", 3]], ["C", "E", "G", "B", "D"]]
+    cases = []
+    for st in sets:
+        for nm in ("C", "E", "B#", "Db", "F"):
+            cases.append((NoteContainer(list(st)), nm))
+            cases.append((NoteContainer(list(st)), Note(nm, 4)))
+            for nm2 in ("C", "G", "C#", "A"):
+                cases.append((NoteContainer(list(st)), [nm, nm2]))
+    return {"rule": "8 containers (0..5 notes, octave doublings, enharmonic twins) x {a name, a Note, a list of two names}",
+            "cases": cases}
+
+
 @battery("track_add_bar")
 def b_track_add_bar(tier, rnd):
     from mingus.containers.track import Track
